@@ -622,6 +622,12 @@ def w_reduce(arg):
                           'M=%s: %r vs %r' % (M.tolist(), [len(x) for x in c2.basis], [len(x) for x in c.basis]), sig=sig + ('N',))
                 acc.check(np.linalg.det(c2.lattice) > 0, 'right-handed-lattice', 'M=%s' % M.tolist())
                 acc.check(len(c2.G) == len(c.G), 'same-group-order', 'M=%s noise=%g: |G| %d vs %d' % (M.tolist(), noise, len(c2.G), len(c.G)), sig=sig + ('G', noise))
+                # the mechanism that makes the group survive the noise (docstring of Crystal.reduce: the threshold is changed with every
+                # reduction "so that recursion uses the same effective threshold"): positions in the reduced cell are det times larger in
+                # cell coordinates, so the tolerance the symmetry search works with is det times the one given
+                if sum(len(x) for x in c2.basis) * det == sum(len(x) for x in b):
+                    acc.check(abs(c2.threshold - det * 1e-8) <= 1e-6 * det * 1e-8, 'effective-threshold-carried-through-the-reduction',
+                              'M=%s: threshold after reduction %g, given 1e-8 for a cell of %d primitive cells' % (M.tolist(), c2.threshold, det), sig=sig + ('thr',))
     acc.sample = {'crystal': cid, 'supercell_descriptions': ntr, 'determinants': list(dets)}
     return acc.result()
 
